@@ -354,33 +354,60 @@ func c03SetWF(s cty.Value) bool {
 	return true
 }
 
-// c03SetEqualsCases: on well-formed set values of set-free members Equals is RawEquals and Equals-true
-// values hash alike (C03.equals_eq_rawEquals_sets, C03.equals_equiv_sets).
+// c03DeepWF: every set node of the value, at any depth, is well-formed (c03SetWF)
+func c03DeepWF(v cty.Value) bool {
+	if v.IsNull() || !v.IsKnown() {
+		return true
+	}
+	t := v.Type()
+	if t.IsSetType() && !c03SetWF(v) {
+		return false
+	}
+	if t.IsListType() || t.IsSetType() || t.IsTupleType() || t.IsMapType() || t.IsObjectType() {
+		for it := v.ElementIterator(); it.Next(); {
+			_, e := it.Element()
+			if !c03DeepWF(e) {
+				return false
+			}
+		}
+	}
+	return true
+}
+
+// c03DeepMember: Payload.deepMember through the public API
+func c03DeepMember(v cty.Value) bool {
+	ints, quot := true, true
+	c03Walk(v, &ints, &quot)
+	return ints && quot && v.IsWhollyKnown() && !v.ContainsMarked() && c03DeepWF(v)
+}
+
+// c03SetEqualsCases: on values all of whose set nodes are well-formed, Equals is RawEquals and
+// Equals-true values hash alike (C03.equals_eq_rawEquals_with_sets, C03.equals_equiv_with_sets).
 func c03SetEqualsCases(ctx *Ctx, vals []cty.Value) {
 	t := vals[0].Type()
-	if !t.IsSetType() || !c03TyCapFree(t) {
+	if !c03TyCapFree(t) {
 		return
 	}
-	plain := c03TySetFree(t.ElementType())
-	wf := make([]bool, len(vals))
+	setFree := c03TySetFree(t)
+	dm := make([]bool, len(vals))
 	for i, v := range vals {
-		if v.IsNull() || !v.IsKnown() || v.IsMarked() {
-			continue
-		}
 		ok := false
-		if pn, _ := try(func() { ok = c03SetWF(v) }); pn {
+		if pn, _ := try(func() { ok = c03DeepMember(v) }); pn {
 			continue
 		}
-		wf[i] = ok
-		ctx.Add("c03.setwf", b01(ok), encVal(v))
-		ctx.Tag(fmt.Sprintf("d03b:setwf elemSetFree=%s wf=%s members=%d", b01(plain), b01(ok), v.LengthInt()))
-	}
-	if !plain {
-		return
+		dm[i] = ok
+		ctx.Add("c03.deepmember", b01(ok), encVal(v))
+		ctx.Tag(fmt.Sprintf("d03b:deepmember setFree=%s deepMember=%s", b01(setFree), b01(ok)))
+		if t.IsSetType() && v.IsKnown() && !v.IsNull() && !v.IsMarked() {
+			wf := false
+			if pn, _ := try(func() { wf = c03SetWF(v) }); !pn {
+				ctx.Add("c03.setwf", b01(wf), encVal(v))
+			}
+		}
 	}
 	for i := range vals {
 		for j := range vals {
-			if !wf[i] || !wf[j] {
+			if !dm[i] || !dm[j] {
 				continue
 			}
 			x, y := vals[i], vals[j]
@@ -389,15 +416,15 @@ func c03SetEqualsCases(ctx *Ctx, vals []cty.Value) {
 			if pn, _ := try(func() { raw = x.RawEquals(y) }); pn {
 				continue
 			}
-			ctx.Eval("d03b setequals "+encVal(x)+" "+encVal(y), x.LengthInt() >= 1 && i != j)
+			ctx.Eval("d03b deepequals "+encVal(x)+" "+encVal(y), !setFree && i != j)
 			if eq != raw {
 				ctx.Fail(Failure{Site: "d03b-set-equals", Sig: "equals-differs-from-rawequals-on-wellformed-sets",
-					What:  "two well-formed set values (members wholly known, integers, pairwise different, Less total) are Equals but not RawEquals or the reverse — contradicts C03.equals_eq_rawEquals_sets",
+					What:  "two wholly known values all of whose set nodes are well-formed (integers, members pairwise different, Less total) are Equals but not RawEquals or the reverse — contradicts C03.equals_eq_rawEquals_with_sets",
 					Input: encVal(x) + " " + encVal(y), GoLit: c03Lits(x, y), Outcome: fmt.Sprintf("Equals %v RawEquals %v", eq, raw)})
 			}
 			if eq && c03HashBytes(x) != c03HashBytes(y) {
 				ctx.Fail(Failure{Site: "d03b-set-equals", Sig: "equal-wellformed-sets-hash-differently",
-					What:  "two well-formed set values that are Equals have different hash bytes — contradicts C03.equals_equiv_sets",
+					What:  "two such values that are Equals have different hash bytes — contradicts C03.equals_equiv_with_sets",
 					Input: encVal(x) + " " + encVal(y), GoLit: c03Lits(x, y), Outcome: encStr(c03HashBytes(x)) + " vs " + encStr(c03HashBytes(y))})
 			}
 		}
